@@ -682,6 +682,7 @@ var validateClasses = []struct {
 	{regexp.MustCompile(`"count" and "device_ids" attributes are exclusive`), "countAndIds"},
 	{regexp.MustCompile(`conflicting parameters "external" and`), "conflictingExternal"},
 	{regexp.MustCompile(`^expected volume, got`), "expectedVolume"},
+	{regexp.MustCompile(`\.external: invalid boolean: `), "invalidBoolean"},
 }
 
 func validateClass(err error) string {
